@@ -353,6 +353,8 @@ class Interp:
             if isinstance(v, Enum) and v.variant in ("Ok", "Err"):
                 return (v.variant == "Ok") == cal.endswith("is_ok")
             raise Undecided("is_ok on %r" % (v,))
+        if re.search(r"<impl value::kind::Kind>::at_path$|<impl value::kind::Kind>::get$", cal):
+            return KD(set(KINDS))
         if re.search(r"<impl value::kind::Kind>::merge_keep$|<impl value::kind::Kind>::merge$", cal):
             return Enum("(tuple)", None)
         if re.search(r"value::kind::builder::<impl value::kind::Kind>::union$|<impl value::kind::Kind>::union$", cal):
@@ -389,6 +391,8 @@ class Interp:
                 return Ref(KD(owner=self.td(a[0])))
             if n.startswith("or_") and n[3:] in KINDS:
                 d = self.td(a[0]); d.kind = d.kind | {n[3:]}; return d
+            if n == "at_path":
+                d = self.td(a[0]); return TD(set(KINDS) | set(d.kind), d.fallible)
             if n in ("returns", "returns_mut"):
                 return Ref(KD(set()))
             if n == "with_returns":
@@ -410,12 +414,16 @@ class Interp:
             if isinstance(v, Enum):
                 return Enum(v.adt, v.variant, dict(v.fields))
             return v
-        if re.search(r"as std::convert::(Into|From)<.*>>::(into|from)$", cal) and len(a) == 1:
+        full = (t.get("fn_full") or "") + " " + (t.get("rfn_full") or "") + " " + cal
+        if (re.search(r"as std::convert::(Into|From)<.*>>::(into|from)\b", full) or re.search(r"<impl std::convert::From<.*> for .*>::from\b", full)) and len(a) == 1:
+            cal = full
             v = a[0]
+            to_td = re.search(r"Into<compiler::type_def::TypeDef>|<compiler::type_def::TypeDef as std::convert::From| for compiler::type_def::TypeDef>::from\b", cal)
+            to_kd = re.search(r"Into<value::kind::Kind>|<value::kind::Kind as std::convert::From| for value::kind::Kind>::from\b", cal)
             if isinstance(v, KD):
-                return TD(v.kind) if re.search(r"Into<compiler::type_def::TypeDef>|<compiler::type_def::TypeDef as std::convert::From", cal) else v
+                return TD(v.kind) if to_td else v
             if isinstance(v, TD):
-                return v
+                return KD(set(v.kind)) if to_kd else v      # Kind::from(TypeDef) forgets the fallibility
             return UNK
         if cal == "compiler::expression::Expression::apply_type_info" or re.search(r"as compiler::expression::Expression>::apply_type_info$", cal):
             e = self.expr_of(a[0])
